@@ -13,6 +13,7 @@ def main(tier):
     ck = Check('C23', tier, ['memory'], bodies='image,image/color,math/bits')
     ck.bounds = {'step': 'one write through the real Mapper (address class as in C06/C07: every plain range with a symbolic address, every I/O register) / one read at any address / one machine cycle of each component, from every machine state with a recording io.Writer attached and an arbitrary earlier transcript',
                  'induction': 'a write to FF01 appends exactly that byte with one Write call; nothing else appends or reorders: by induction every program\'s transcript is the sequence of its SB writes',
+                 'cpu side': 'every storing opcode (24 base, the (HL) forms of the CB rotate/shift/RES/SET groups) performs exactly its documented write with every operand value (C03 lemma, flat memory stub)',
                  'outside': 'a writer that returns an error (WriteSB panics by design); blargg transcript comparison; the SerialWriter wiring in gameboy.New (C26)'}
     ck.assumptions = ['component invariants as in C06', 'the writer never returns an error (bytes.Buffer contract)']
     jobs = [('memory', 'VerifSerialWrite', dict(c06.CARTS['none'], cls=cls, addr=0)) for cls in range(10)]
@@ -21,6 +22,16 @@ def main(tier):
     ck.stubs_used.append('io.Writer -> recording writer defined in the harness (real interface dispatch)')
     ck.stubs_used.append('PPU.renderPixel -> no-op in the PPU machine-cycle job only (it has no access to the serial port: it touches the frame buffer only, C15)')
     ck.run(jobs, timeout_ms=600000, max_unwind=64, setup=stub_render)
+    # the guest's writes are CPU instructions: every storing opcode performs its write in full (address and value as documented,
+    # also when the value equals what is already there) - the C03 lemma for the storing opcodes, flat memory stub
+    from cpu_common import FLAT
+    ck.use_build(['cpu'], extra_overlay=FLAT)
+    stores = [0x02, 0x12, 0x22, 0x32, 0x36, 0x70, 0x71, 0x72, 0x73, 0x74, 0x75, 0x77, 0xe0, 0xe2, 0xea, 0x08, 0x34, 0x35, 0xc5, 0xd5, 0xe5, 0xf5, 0xcd, 0xc7]
+    cbs = [0x06, 0x0e, 0x16, 0x1e, 0x26, 0x2e, 0x36, 0x3e] + [o for o in range(0x80, 0x100) if o & 7 == 6]
+    if tier == 'quick':
+        cbs = cbs[:8] + cbs[8::4]
+    ck.run([('cpu', 'VerifInstr', {'op': o, 'cb': 0}) for o in stores] + [('cpu', 'VerifInstr', {'op': o, 'cb': 1}) for o in cbs],
+           timeout_ms=300000, only=r'^(access-|memory$)')
     ck.finish(explanation='one-step checks that only a write to FF01 reaches the serial writer, exactly once and in order')
 
 
